@@ -6,6 +6,11 @@ ids = [p['id'] for p in props]
 
 # id -> (category, technique, level text, level note, design ref); only built checks are listed
 CHECKS = {
+ "C12": ("exploration",
+   "property-based testing: proptest-generated probe rounds with near-miss evidence against a round ledger built from observations, plus an enumerated 4-instance relay chain with every hop lost in turn",
+   "Random search with shrinking over the inputs placed around the two probe timers; the ledger restates the statement's evidence rule and is compared with the instance's behaviour at the next round and with its private probe state after every call.",
+   "Probe timers are delivered in deadline order; acceptance of datagrams is classified structurally; private probe state read via the hook snapshot as a cross-check.",
+   "DESIGN.md §4 C12"),
  "C01": ("exploration",
    "property-based testing: model-based (reference lattice join) check over bounded-exhaustive update sequences, proptest multisets with generated permutation/duplication/split plans, and two-instance state exchange",
    "Every update sequence up to length 4 (quick) / 5 (thorough) over the 18-letter single-address alphabet is enumerated completely; larger multisets, several addresses, own-address generations and state exchange are sampled with shrinking. Outside the enumerated sub-space the evidence is bounded by the reported counts.",
